@@ -6,6 +6,12 @@ use crate::p3::query::{Ray, RayCast, RayIntersection};
 use crate::p3::shape::{Ball, Capsule, Cone, Cuboid, Cylinder, FeatureId, HalfSpace, Triangle};
 use crate::p3::na::{Unit, Vector3};
 use crate::p2::query::{Ray as Ray2, RayCast as RayCast2};
+use crate::p3::bounding_volume::SimdAabb;
+use crate::p3::math::SimdReal;
+use crate::p3::query::SimdRay;
+use crate::p3::simba::simd::SimdValue;
+use crate::p3::shape::{Compound, HeightField, HeightFieldCellStatus, SharedShape, TriMesh};
+use crate::p3::na::DMatrix;
 
 type P3 = d3::Point<f64>;
 type V3 = d3::Vector<f64>;
@@ -71,14 +77,62 @@ pub fn exec(func: &str, a: &mut Args) -> String {
             ointer(Capsule::new(p, q, r).cast_local_ray_and_get_normal(&ray, m, s)) }
         "cylinder_normal" => { let hh = a.f(); let r = a.f(); let (ray, m, s) = ray_tail(a); ointer(Cylinder::new(hh, r).cast_local_ray_and_get_normal(&ray, m, s)) }
         "cone_normal" => { let hh = a.f(); let r = a.f(); let (ray, m, s) = ray_tail(a); ointer(Cone::new(hh, r).cast_local_ray_and_get_normal(&ray, m, s)) }
+        // ---- BVH pruning test of the composite ray-cast visitors (one lane of `SimdAabb::cast_local_ray`)
+        "simd_aabb_cast" => { let mins = d3::p(a); let maxs = d3::p(a); let o = d3::p(a); let d = d3::v(a); let m = a.f();
+            let (hit, t) = SimdAabb::splat(Aabb::new(mins, maxs)).cast_local_ray(&SimdRay::splat(Ray::new(o, d)), SimdReal::splat(m));
+            format!("{} {}", b(hit.extract(0)), ff(t.extract(0))) }
+        // ---- composite shapes: heightfield (grid walk), TriMesh / Compound / 2-D Polyline (best-first BVH traversal)
+        "rc_hf3" => { let hf = hf3(a); let (ray, m, s) = ray_tail(a); ointer(hf.cast_local_ray_and_get_normal(&ray, m, s)) }
+        "rc_hf3_posed" => { let hf = hf3(a); let iso = d3::iso(a); let (ray, m, s) = ray_tail(a); ointer(hf.cast_ray_and_get_normal(&iso, &ray, m, s)) }
+        "rc_trimesh" => { let tm = trimesh(a); let (ray, m, s) = ray_tail(a); ointer(tm.cast_local_ray_and_get_normal(&ray, m, s)) }
+        "rc_trimesh_toi" => { let tm = trimesh(a); let (ray, m, s) = ray_tail(a); otoi(tm.cast_local_ray(&ray, m, s)) }
+        "rc_compound" => { let c = compound(a); let (ray, m, s) = ray_tail(a); ointer(c.cast_local_ray_and_get_normal(&ray, m, s)) }
+        "rc_compound_toi" => { let c = compound(a); let (ray, m, s) = ray_tail(a); otoi(c.cast_local_ray(&ray, m, s)) }
+        "rc_polyline2" => { let pl = polyline2(a); let (ray, m, s) = ray_tail2(a); ointer2(pl.cast_local_ray_and_get_normal(&ray, m, s)) }
+        "rc_hf2" => { let hf = hf2(a); let (ray, m, s) = ray_tail2(a); ointer2(hf.cast_local_ray_and_get_normal(&ray, m, s)) }
         _ => "nofn".into(),
     }
+}
+
+// ------------------------------------------------------------------ composite shapes on the wire
+/// 2-D heightfield: `n h[n] sx sy nrem (i)*nrem`
+fn hf2(a: &mut Args) -> crate::p2::shape::HeightField {
+    let n = a.u(); let hs: Vec<f64> = (0..n).map(|_| a.f()).collect(); let sc = d2::v(a);
+    let mut hf = crate::p2::shape::HeightField::new(crate::p2::na::DVector::from_vec(hs), sc);
+    let nrem = a.u(); for _ in 0..nrem { let i = a.u(); hf.set_segment_removed(i, true); }
+    hf
+}
+/// heightfield: `nr nc h[nr*nc] (column-major) sx sy sz ns (i j bits)*ns`
+fn hf3(a: &mut Args) -> HeightField {
+    let nr = a.u(); let nc = a.u();
+    let hs: Vec<f64> = (0..nr * nc).map(|_| a.f()).collect();
+    let sc = d3::v(a);
+    let mut hf = HeightField::new(DMatrix::from_column_slice(nr, nc, &hs), sc);
+    let ns = a.u();
+    for _ in 0..ns { let i = a.u(); let j = a.u(); let bits = a.u() as u8; hf.set_cell_status(i, j, HeightFieldCellStatus::from_bits_truncate(bits)); }
+    hf
+}
+/// trimesh: `nv (x y z)*nv nt (i j k)*nt`
+fn trimesh(a: &mut Args) -> TriMesh {
+    let nv = a.u(); let vs: Vec<P3> = (0..nv).map(|_| d3::p(a)).collect();
+    let nt = a.u(); let is: Vec<[u32; 3]> = (0..nt).map(|_| [a.u() as u32, a.u() as u32, a.u() as u32]).collect();
+    TriMesh::new(vs, is).expect("trimesh")
+}
+/// compound of cuboids: `np (hx hy hz iso)*np`
+fn compound(a: &mut Args) -> Compound {
+    let np = a.u();
+    Compound::new((0..np).map(|_| { let he = d3::v(a); let m = d3::iso(a); (m, SharedShape::new(Cuboid::new(he))) }).collect())
+}
+/// 2-D polyline: `nv (x y)*nv`
+fn polyline2(a: &mut Args) -> crate::p2::shape::Polyline {
+    let nv = a.u(); let vs: Vec<P2> = (0..nv).map(|_| d2::p(a)).collect();
+    crate::p2::shape::Polyline::new(vs, None)
 }
 
 // ------------------------------------------------------------------ generators
 
 /// functions whose Lean handler exists (widened as the model grows)
-const ENABLED: &[&str] = &["ball_toi", "ball_normal", "ball_posed", "ray_toi_with_ball", "bsphere_normal", "aabb_toi", "aabb_normal", "clip_aabb_line", "cuboid_toi", "cuboid_normal", "cuboid_posed", "cuboid_posed_toi", "halfspace_normal", "halfspace_posed", "triangle_normal", "triangle_inter", "segment2_normal", "segment2_posed", "capsule_normal", "cylinder_normal", "cone_normal"];
+const ENABLED: &[&str] = &["rc_hf2", "simd_aabb_cast", "rc_hf3", "rc_hf3_posed", "rc_trimesh", "rc_trimesh_toi", "rc_compound", "rc_compound_toi", "rc_polyline2", "ball_toi", "ball_normal", "ball_posed", "ray_toi_with_ball", "bsphere_normal", "aabb_toi", "aabb_normal", "clip_aabb_line", "cuboid_toi", "cuboid_normal", "cuboid_posed", "cuboid_posed_toi", "halfspace_normal", "halfspace_posed", "triangle_normal", "triangle_inter", "segment2_normal", "segment2_posed", "capsule_normal", "cylinder_normal", "cone_normal"];
 
 const DIR_SCALES: [f64; 9] = [0.001, 0.015625, 0.125, 0.5, 1.0, 2.0, 8.0, 64.0, 1000.0];
 
@@ -366,6 +420,357 @@ pub fn gen(r: &mut Rng, thorough: bool) -> Vec<(String, String)> {
             v.push(("cone_normal".into(), format!("{} {} {}", hx(hh), hx(cr), tail(&o, &d, m, solid))));
         }
     }
+    gen_composites(r, thorough, &mut v);
     v.retain(|(f, _)| ENABLED.contains(&f.as_str()));
     v
+}
+
+// ------------------------------------------------------------------ generators: BVH pruning test, heightfield, composite shapes
+// (appended after the closed-form families so that their random stream is unchanged)
+
+const POW2_SCALES: [f64; 5] = [0.125, 0.5, 1.0, 2.0, 8.0];
+/// lattice: multiply by a power of two (keeps every float operation of the casts exact); random: rescale to a log-uniform length
+fn scale_dir(r: &mut Rng, lat: bool, d: V3) -> V3 {
+    if lat { d * *r.pick(&POW2_SCALES) } else { let n = d.norm(); if n > 0.0 { d * (dir_scale(r, false) / n) } else { d } }
+}
+/// a point of a triangle: vertex / edge / interior; lattice: barycentric coordinates in quarters
+fn tri_point(r: &mut Rng, lat: bool, t: &Triangle) -> P3 {
+    let k = r.below(8);
+    let (x, y, z) = if k == 0 { (1.0, 0.0, 0.0) }
+        else if k <= 2 { let u = if lat { *r.pick(&[0.25, 0.5, 0.75]) } else { r.unit() }; (u, 1.0 - u, 0.0) }
+        else if lat { *r.pick(&[(0.25, 0.25, 0.5), (0.5, 0.25, 0.25), (0.25, 0.5, 0.25)]) }
+        else { let a = r.unit(); let b2 = r.unit() * (1.0 - a); (a, b2, 1.0 - a - b2) };
+    let (x, y, z) = match r.below(3) { 0 => (x, y, z), 1 => (y, z, x), _ => (z, x, y) };
+    P3::from(t.a.coords * x + t.b.coords * y + t.c.coords * z)
+}
+/// axis-parallel ray through `p`: only one coordinate of the origin differs from `p`, so when `p` lies on a grid line / seam /
+/// box face the origin lies EXACTLY in that plane and the direction component across it is exactly zero
+fn axis_ray(r: &mut Rng, lat: bool, p: P3, size: f64) -> (P3, V3) {
+    let ax = r.below(3) as usize; let mut d = V3::zeros(); d[ax] = if r.bool() { 1.0 } else { -1.0 };
+    let back = if lat { r.range(-2, 8) as f64 * 0.5 } else { r.uniform(-0.5, 3.0) * size };
+    (p - d * back, neg_zero_some(r, d))
+}
+fn far_offset(r: &mut Rng, lat: bool, size: f64) -> V3 {
+    loop { let v = if lat { V3::new(r.lattice(24, 2), r.lattice(24, 2), r.lattice(24, 2)) } else { rand_dir3(r, false).normalize() * (size * r.logu(0.3, 10.0)) };
+           if v.norm_squared() > 0.0 { return v; } }
+}
+
+struct HfSpec { nr: usize, nc: usize, hs: Vec<f64>, sc: V3, st: Vec<(usize, usize, u8)> }
+fn hf_wire(h: &HfSpec) -> String {
+    format!("{} {} {} {} {}{}", h.nr, h.nc, hxs(h.hs.iter()), d3::hv(&h.sc), h.st.len(),
+            h.st.iter().map(|(i, j, bits)| format!(" {} {} {}", i, j, bits)).collect::<String>())
+}
+fn gen_hf_spec(r: &mut Rng, lat: bool) -> HfSpec {
+    let mut cells = |r: &mut Rng| -> usize { if lat { *r.pick(&[1usize, 2, 2, 4, 4, 3, 5]) } else { 1 + r.below(5) as usize } };
+    let (cr, cc) = (cells(r), cells(r)); let (nr, nc) = (cr + 1, cc + 1);
+    let pat = r.below(6);
+    let amp = if lat { *r.pick(&[0.25, 0.5, 1.0]) } else { r.uniform(0.1, 1.0) };
+    let mut hs = Vec::new();
+    for j in 0..nc { for i in 0..nr {
+        hs.push(match pat {
+            0 => 0.5,                                              // planar, horizontal (flat bounding box)
+            1 => ((i + j) % 2) as f64 * amp,                      // checkerboard: every cell is folded along a diagonal (ridges / valleys)
+            2 => (i as f64) * 0.25 + (j as f64) * 0.5,            // planar, tilted
+            _ => if lat { r.range(-4, 4) as f64 * 0.25 } else { r.uniform(-1.0, 1.0) } });
+    } }
+    let sc = if lat { V3::new(*r.pick(&[2.0, 4.0, 8.0]), *r.pick(&[1.0, 2.0, 0.5]), *r.pick(&[2.0, 4.0, 8.0])) }
+             else { V3::new(r.uniform(1.0, 10.0), r.uniform(0.3, 3.0), r.uniform(1.0, 10.0)) };
+    let mut st = Vec::new();
+    if r.below(3) == 0 { for i in 0..cr { for j in 0..cc { if r.below(3) == 0 { st.push((i, j, r.below(8) as u8)); } } } }
+    HfSpec { nr, nc, hs, sc, st }
+}
+fn gen_hf_ray(r: &mut Rng, lat: bool, hf: &HeightField) -> (P3, V3) {
+    let (cr, cc) = (hf.nrows(), hf.ncols());
+    let bb = hf.local_aabb();
+    let size = (bb.maxs - bb.mins).norm();
+    let cw = hf.x_at(1) - hf.x_at(0); let ch = hf.z_at(1) - hf.z_at(0);
+    // a random cell that still has a triangle
+    let mut cell = None;
+    for _ in 0..12 { let i = r.below(cr as u64) as usize; let j = r.below(cc as u64) as usize; let t = hf.triangles_at(i, j); if t.0.is_some() || t.1.is_some() { cell = Some((i, j, t)); break; } }
+    let mid_y = if lat { (bb.mins.y + bb.maxs.y) * 0.5 } else { r.uniform(bb.mins.y, bb.maxs.y) };
+    let box_pt = |r: &mut Rng| -> P3 { if lat { P3::new(bb.mins.x + (bb.maxs.x - bb.mins.x) * *r.pick(&[0.0, 0.25, 0.5, 0.75, 1.0]), mid_y, bb.mins.z + (bb.maxs.z - bb.mins.z) * *r.pick(&[0.0, 0.25, 0.5, 0.75, 1.0])) }
+                                      else { P3::new(r.uniform(bb.mins.x, bb.maxs.x), r.uniform(bb.mins.y, bb.maxs.y), r.uniform(bb.mins.z, bb.maxs.z)) } };
+    let kind = r.below(11);
+    let (o, d) = match (kind, &cell) {
+        // through BOTH triangles of one cell (first one point of each, then the line through them): on a folded cell the ray
+        // pierces the two triangles at different times
+        (0..=2, Some((_, _, (Some(t1), Some(t2))))) => {
+            let (ta, tb) = if r.bool() { (t1, t2) } else { (t2, t1) };
+            let p1 = tri_point(r, lat, ta);
+            let p2 = tri_point(r, lat, tb);
+            let d = p2 - p1;
+            // planar cell: the line through the two points lies in the common plane (coplanar rays are a known finding of the
+            // triangle cast, exercised by `triangle_normal`); come down on the first point instead
+            let n1 = (ta.b - ta.a).cross(&(ta.c - ta.a));
+            if d.norm_squared() == 0.0 || n1.dot(&d).abs() <= 1e-9 * n1.norm() * d.norm() { (p1 + V3::new(0.0, 1.0, 0.0), V3::new(0.0, -1.0, 0.0)) }
+            else { let back = if lat { *r.pick(&[0.25, 0.5, 1.0, 3.0]) } else { r.uniform(0.05, 2.0) }; (p1 - d * back, d) }
+        }
+        (0..=3, Some((_, _, t))) => { // aimed at a surface point, from anywhere
+            let tri = match (&t.0, &t.1) { (Some(a), Some(b2)) => if r.bool() { a } else { b2 }, (Some(a), None) => a, (None, Some(b2)) => b2, _ => unreachable!() };
+            let p = tri_point(r, lat, tri); let o = p + far_offset(r, lat, size);
+            (o, if r.below(6) == 0 { o - p } else { p - o })
+        }
+        (4, _) => { // horizontal ray at a height inside the relief
+            let tgt = box_pt(r); let mut off = far_offset(r, lat, size); off.y = 0.0; if off.norm_squared() == 0.0 { off.x = 1.0; }
+            let o = P3::new(tgt.x + off.x, tgt.y, tgt.z + off.z); (o, tgt - o)
+        }
+        (5, _) => { // vertical ray over a grid node / a grid line / a cell centre
+            let j = r.below(cc as u64 + 1) as usize; let i = r.below(cr as u64 + 1) as usize;
+            let (fx, fz) = match r.below(4) { 0 => (0.0, 0.0), 1 => (0.5, 0.0), 2 => (0.0, 0.5), _ => (0.5, 0.5) };
+            let (fx, fz) = if lat { (fx, fz) } else if r.bool() { (fx, fz) } else { (r.unit(), r.unit()) };
+            let x = hf.x_at(j) + cw * if j < cc { fx } else { 0.0 }; let z = hf.z_at(i) + ch * if i < cr { fz } else { 0.0 };
+            let up = r.bool(); let gap = if lat { r.range(-1, 6) as f64 * 0.5 } else { r.uniform(-0.5, 3.0) };
+            if up { (P3::new(x, bb.mins.y - gap, z), V3::new(0.0, 1.0, 0.0)) } else { (P3::new(x, bb.maxs.y + gap, z), V3::new(0.0, -1.0, 0.0)) }
+        }
+        (6, _) => { // along a grid line, or diagonally through the grid nodes (toi_x == toi_z ties), through a vertex of the relief
+            let j = r.below(cc as u64 + 1) as usize; let i = r.below(cr as u64 + 1) as usize;
+            let hy = hf.heights()[(i, j)] * hf.scale().y;
+            let node = P3::new(hf.x_at(j), if r.bool() { hy } else { mid_y }, hf.z_at(i));
+            let dy = if lat { *r.pick(&[0.0, 0.0, 0.25, -0.25, 0.5]) } else if r.bool() { 0.0 } else { r.uniform(-0.5, 0.5) };
+            let d = match r.below(4) { 0 => V3::new(0.0, dy, if r.bool() { ch } else { -ch }), 1 => V3::new(if r.bool() { cw } else { -cw }, dy, 0.0),
+                                       _ => V3::new(if r.bool() { cw } else { -cw }, dy, if r.bool() { ch } else { -ch }) };
+            let back = if lat { r.range(-1, 6) as f64 * 0.5 } else { r.uniform(-0.5, 4.0) };
+            (node - d * back, d)
+        }
+        (7, _) => (box_pt(r), rand_dir3(r, lat)),
+        (8, Some((_, _, t))) => { let tri = t.0.as_ref().or(t.1.as_ref()).unwrap(); let p = tri_point(r, lat, tri); axis_ray(r, lat, p, size) }
+        _ => { let tgt = box_pt(r); let o = tgt + far_offset(r, lat, size); (o, if r.below(3) == 0 { rand_dir3(r, lat) } else { tgt - o }) }
+    };
+    let d = if d.norm_squared() == 0.0 { V3::new(1.0, 0.0, 0.0) } else { d };
+    (o, scale_dir(r, lat, d))
+}
+
+struct MeshSpec { vs: Vec<P3>, is: Vec<[u32; 3]> }
+fn mesh_wire(m: &MeshSpec) -> String {
+    format!("{} {} {} {}", m.vs.len(), m.vs.iter().map(d3::hp).collect::<Vec<_>>().join(" "), m.is.len(),
+            m.is.iter().map(|t| format!("{} {} {}", t[0], t[1], t[2])).collect::<Vec<_>>().join(" "))
+}
+fn gen_mesh(r: &mut Rng, lat: bool) -> MeshSpec {
+    match r.below(4) {
+        0 | 1 => { // terrain-like grid: vertices on axis-aligned grid lines, every leaf box has faces in the grid planes
+            let nx = 1 + r.below(3) as usize; let nz = 1 + r.below(3) as usize;
+            let (dx, dz) = if lat { (*r.pick(&[0.5, 1.0, 2.0]), *r.pick(&[0.5, 1.0, 2.0])) } else { (r.uniform(0.3, 2.0), r.uniform(0.3, 2.0)) };
+            let (x0, z0) = if lat { (r.range(-4, 2) as f64 * 0.5, r.range(-4, 2) as f64 * 0.5) } else { (r.uniform(-3.0, 1.0), r.uniform(-3.0, 1.0)) };
+            let flat = r.below(4) == 0;
+            let mut vs = Vec::new();
+            for iz in 0..=nz { for ix in 0..=nx {
+                let h = if flat { 0.5 } else if lat { r.range(-2, 2) as f64 * 0.25 } else { r.uniform(-1.0, 1.0) };
+                vs.push(P3::new(x0 + dx * ix as f64, h, z0 + dz * iz as f64)); } }
+            let mut is = Vec::new();
+            for iz in 0..nz { for ix in 0..nx {
+                let a = (iz * (nx + 1) + ix) as u32; let (b2, c, d) = (a + 1, a + nx as u32 + 1, a + nx as u32 + 2);
+                if r.bool() { is.push([a, c, b2]); is.push([b2, c, d]); } else { is.push([a, c, d]); is.push([a, d, b2]); } } }
+            MeshSpec { vs, is }
+        }
+        2 => { // closed axis-aligned box
+            let he = d3::gen_he(r, lat); let c = d3::gen_v(r, lat, 4.0);
+            let mut vs = Vec::new();
+            for k in 0..8 { vs.push(P3::from(c + V3::new(if k & 1 == 0 { -he.x } else { he.x }, if k & 2 == 0 { -he.y } else { he.y }, if k & 4 == 0 { -he.z } else { he.z }))); }
+            let is = vec![[0, 2, 1], [1, 2, 3], [4, 5, 6], [5, 7, 6], [0, 1, 4], [1, 5, 4], [2, 6, 3], [3, 6, 7], [0, 4, 2], [2, 4, 6], [1, 3, 5], [3, 7, 5]];
+            MeshSpec { vs, is }
+        }
+        _ => { // triangle soup
+            let nt = 1 + r.below(6) as usize; let mut vs = Vec::new(); let mut is = Vec::new();
+            for k in 0..nt {
+                let (pa, pb, pc) = loop { let pa = d3::gen_p(r, lat, 4.0); let pb = d3::gen_p(r, lat, 4.0); let pc = d3::gen_p(r, lat, 4.0);
+                                          if (pb - pa).cross(&(pc - pa)).norm() > 1e-2 { break (pa, pb, pc); } };
+                vs.push(pa); vs.push(pb); vs.push(pc); is.push([3 * k as u32, 3 * k as u32 + 1, 3 * k as u32 + 2]);
+            }
+            MeshSpec { vs, is }
+        }
+    }
+}
+fn gen_mesh_ray(r: &mut Rng, lat: bool, m: &MeshSpec) -> (P3, V3) {
+    let t = m.is[r.below(m.is.len() as u64) as usize];
+    let tri = Triangle::new(m.vs[t[0] as usize], m.vs[t[1] as usize], m.vs[t[2] as usize]);
+    let size = m.vs.iter().map(|p| p.coords.norm()).fold(1.0, f64::max);
+    let (o, d) = match r.below(8) {
+        0 | 1 => { let p = tri_point(r, lat, &tri); let o = p + far_offset(r, lat, size); (o, if r.below(6) == 0 { o - p } else { p - o }) }
+        2 | 3 | 4 => { let p = tri_point(r, lat, &tri); axis_ray(r, lat, p, size) }
+        5 => (tri_point(r, lat, &tri), rand_dir3(r, lat)),
+        _ => { let p = tri_point(r, lat, &tri); (p + far_offset(r, lat, size), rand_dir3(r, lat)) }
+    };
+    let d = if d.norm_squared() == 0.0 { V3::new(0.0, -1.0, 0.0) } else { d };
+    (o, scale_dir(r, lat, d))
+}
+
+struct CompSpec { parts: Vec<(V3, d3::Isometry<f64>)> }
+fn comp_wire(c: &CompSpec) -> String { format!("{} {}", c.parts.len(), c.parts.iter().map(|(he, m)| format!("{} {}", d3::hv(he), d3::hiso(m))).collect::<Vec<_>>().join(" ")) }
+fn gen_comp(r: &mut Rng, lat: bool) -> CompSpec {
+    let n = 1 + r.below(5) as usize;
+    let mut parts = Vec::new();
+    if r.below(3) != 0 { // boxes glued face to face along one axis (seams), identity rotations
+        let ax = r.below(3) as usize; let mut c = d3::gen_v(r, lat, 4.0); let mut prev: Option<V3> = None;
+        for _ in 0..n {
+            let he = d3::gen_he(r, lat);
+            if let Some(ph) = prev { c[ax] += ph[ax] + he[ax]; if r.below(3) == 0 { let k = (ax + 1) % 3; c[k] += if lat { 0.5 } else { r.uniform(-0.5, 0.5) }; } }
+            parts.push((he, d3::Isometry::translation(c.x, c.y, c.z)));
+            prev = Some(he);
+        }
+    } else { for _ in 0..n { parts.push((d3::gen_he(r, lat), d3::gen_iso(r, lat, 4.0))); } }
+    CompSpec { parts }
+}
+fn gen_comp_ray(r: &mut Rng, lat: bool, c: &CompSpec) -> (P3, V3) {
+    let (he, m) = &c.parts[r.below(c.parts.len() as u64) as usize];
+    let mut p = if lat { V3::new(he.x * *r.pick(&[-0.5, 0.0, 0.5]), he.y * *r.pick(&[-0.5, 0.0, 0.5]), he.z * *r.pick(&[-0.5, 0.0, 0.5])) }
+                else { V3::new(he.x * r.uniform(-1.0, 1.0), he.y * r.uniform(-1.0, 1.0), he.z * r.uniform(-1.0, 1.0)) };
+    let surf = r.below(3) != 0;
+    if surf { let nfix = 1 + if r.below(3) == 0 { r.below(3) as usize } else { 0 }; let start = r.below(3) as usize;
+              for k in 0..nfix { let i = (start + k) % 3; p[i] = if r.bool() { he[i] } else { -he[i] }; } }
+    let p = m * P3::from(p);
+    let size = he.norm() + 4.0;
+    let (o, d) = match r.below(8) {
+        0 | 1 => { let o = p + far_offset(r, lat, size); (o, if r.below(6) == 0 { o - p } else { p - o }) }
+        2 | 3 | 4 => axis_ray(r, lat, p, size),
+        5 => (p, rand_dir3(r, lat)),
+        _ => (p + far_offset(r, lat, size), rand_dir3(r, lat)),
+    };
+    let d = if d.norm_squared() == 0.0 { V3::new(0.0, -1.0, 0.0) } else { d };
+    (o, scale_dir(r, lat, d))
+}
+
+fn gen_polyline2(r: &mut Rng, lat: bool) -> Vec<P2> {
+    let n = 2 + r.below(5) as usize;
+    let mut p = d2::gen_p(r, lat, 4.0); let mut vs = vec![p];
+    for _ in 1..n {
+        let s = if lat { let s = *r.pick(&[(1.0, 0.0), (0.0, 1.0), (1.0, 1.0), (0.5, 0.0), (0.0, -1.0), (1.0, -0.5), (2.0, 0.0), (0.0, 0.5)]); V2::new(s.0, s.1) }
+                else { loop { let s = V2::new(r.uniform(-2.0, 2.0), r.uniform(-2.0, 2.0)); if s.norm() > 0.1 { break s; } } };
+        p += s; vs.push(p);
+    }
+    vs
+}
+fn gen_polyline2_ray(r: &mut Rng, lat: bool, vs: &[P2]) -> (P2, V2) {
+    let k = r.below(vs.len() as u64 - 1) as usize; let (pa, pb) = (vs[k], vs[k + 1]);
+    let t = if lat { *r.pick(&[0.0, 0.25, 0.5, 1.0]) } else { r.unit() };
+    let p = pa + (pb - pa) * t;
+    let off = loop { let v = if lat { V2::new(r.lattice(16, 1), r.lattice(16, 1)) } else { d2::gen_v(r, false, 6.0) }; if v.norm_squared() > 0.0 { break v; } };
+    let (o, d) = match r.below(8) {
+        0 | 1 => { let o = p + off; (o, if r.below(6) == 0 { o - p } else { p - o }) }
+        2 | 3 | 4 => { let mut d = V2::zeros(); d[r.below(2) as usize] = if r.bool() { 1.0 } else { -1.0 };
+                       let back = if lat { r.range(-2, 8) as f64 * 0.5 } else { r.uniform(-0.5, 6.0) }; (p - d * back, d) }
+        5 => { let e = pb - pa; let s = if r.bool() { 1.0 } else { -1.0 }; let back = if lat { r.range(-2, 4) as f64 * 0.5 } else { r.uniform(-1.0, 2.0) }; (p - e * (s * back), e * s) }
+        6 => (p, rand_dir2(r, lat)),
+        _ => (p + off, rand_dir2(r, lat)),
+    };
+    let d = if d.norm_squared() == 0.0 { V2::new(1.0, 0.0) } else { d };
+    let d = if lat { d * *r.pick(&POW2_SCALES) } else { d * (dir_scale(r, false) / d.norm()) };
+    (o, d)
+}
+
+fn gen_composites(r: &mut Rng, thorough: bool, v: &mut Vec<(String, String)>) {
+    let n = if thorough { 3000 } else { 300 };
+    for it in 0..n {
+        let lat = it % 2 == 0;
+        let solid = r.bool();
+        // ---------------- one lane of SimdAabb::cast_local_ray (the pruning test of every BVH ray visitor)
+        for _ in 0..3 {
+            let mut he = d3::gen_he(r, lat);
+            // flat / needle boxes: leaf boxes of axis-aligned triangles and segments
+            match r.below(6) { 0 => { he[r.below(3) as usize] = 0.0; } 1 => { let k = r.below(3) as usize; he[k] = 0.0; he[(k + 1) % 3] = 0.0; } _ => {} }
+            let c = if r.below(4) == 0 { V3::zeros() } else { d3::gen_v(r, lat, 20.0) };
+            let mut ins = |r: &mut Rng| -> P3 {
+                if lat { P3::new(he.x * *r.pick(&[-0.5, 0.0, 0.5]), he.y * *r.pick(&[-0.5, 0.0, 0.5]), he.z * *r.pick(&[-0.5, 0.0, 0.5])) }
+                else { P3::new(he.x * r.uniform(-1.0, 1.0), he.y * r.uniform(-1.0, 1.0), he.z * r.uniform(-1.0, 1.0)) } };
+            let mut sur = |r: &mut Rng| -> P3 {
+                let mut p = if lat { V3::new(he.x * *r.pick(&[-0.5, 0.0, 0.5]), he.y * *r.pick(&[-0.5, 0.0, 0.5]), he.z * *r.pick(&[-0.5, 0.0, 0.5])) }
+                            else { V3::new(he.x * r.uniform(-1.0, 1.0), he.y * r.uniform(-1.0, 1.0), he.z * r.uniform(-1.0, 1.0)) };
+                let nfix = 1 + if r.below(3) == 0 { r.below(3) as usize } else { 0 };
+                let start = r.below(3) as usize;
+                for k in 0..nfix { let i = (start + k) % 3; p[i] = if r.bool() { he[i] } else { -he[i] }; }
+                P3::from(p) };
+            let (o, d) = gen_ray3(r, lat, he.norm(), &mut ins, &mut sur);
+            let (mins, maxs) = if it % 40 == 7 { let i = Aabb::new_invalid(); (i.mins, i.maxs) } else { (P3::from(c - he), P3::from(c + he)) };
+            let oc = o + c;
+            let (h0, t0) = SimdAabb::splat(Aabb::new(mins, maxs)).cast_local_ray(&SimdRay::splat(Ray::new(oc, d)), SimdReal::splat(f64::MAX));
+            let m = gen_max(r, lat, if h0.extract(0) { Some(t0.extract(0)) } else { None }, d.norm());
+            v.push(("simd_aabb_cast".into(), format!("{} {} {} {} {}", d3::hp(&mins), d3::hp(&maxs), d3::hp(&oc), d3::hv(&d), hx(m))));
+        }
+        // ---------------- heightfield (3-D)
+        {
+            let spec = gen_hf_spec(r, lat); let w = hf_wire(&spec);
+            let hf = { let mut a = Args::new(&w); hf3(&mut a) };
+            for k in 0..4 {
+                let (o, d) = gen_hf_ray(r, lat, &hf);
+                let t0 = hf.cast_local_ray(&Ray::new(o, d), f64::MAX, solid);
+                let m = gen_max(r, lat, t0, d.norm());
+                v.push(("rc_hf3".into(), format!("{} {}", w, tail(&o, &d, m, solid))));
+                if k == 0 { let iso = d3::gen_iso(r, lat, 20.0);
+                    v.push(("rc_hf3_posed".into(), format!("{} {} {}", w, d3::hiso(&iso), tail(&(iso * o), &(iso * d), m, solid)))); }
+            }
+        }
+        // ---------------- TriMesh
+        {
+            let spec = gen_mesh(r, lat); let w = mesh_wire(&spec);
+            let tm = { let mut a = Args::new(&w); trimesh(&mut a) };
+            for _ in 0..3 {
+                let (o, d) = gen_mesh_ray(r, lat, &spec);
+                let t0 = tm.cast_local_ray(&Ray::new(o, d), f64::MAX, solid);
+                let m = gen_max(r, lat, t0, d.norm());
+                v.push(("rc_trimesh".into(), format!("{} {}", w, tail(&o, &d, m, solid))));
+                v.push(("rc_trimesh_toi".into(), format!("{} {}", w, tail(&o, &d, m, solid))));
+            }
+        }
+        // ---------------- Compound of cuboids
+        {
+            let spec = gen_comp(r, lat); let w = comp_wire(&spec);
+            let c = { let mut a = Args::new(&w); compound(&mut a) };
+            for _ in 0..3 {
+                let (o, d) = gen_comp_ray(r, lat, &spec);
+                let t0 = c.cast_local_ray(&Ray::new(o, d), f64::MAX, solid);
+                let m = gen_max(r, lat, t0, d.norm());
+                v.push(("rc_compound".into(), format!("{} {}", w, tail(&o, &d, m, solid))));
+                v.push(("rc_compound_toi".into(), format!("{} {}", w, tail(&o, &d, m, solid))));
+            }
+        }
+        // ---------------- heightfield (2-D)
+        {
+            let n = 2 + r.below(6) as usize;
+            let pat = r.below(5);
+            let hs: Vec<f64> = (0..n).map(|i| match pat { 0 => 0.5, 1 => (i % 2) as f64 * 0.5, _ => if lat { r.range(-4, 4) as f64 * 0.25 } else { r.uniform(-1.0, 1.0) } }).collect();
+            let sc = if lat { V2::new(*r.pick(&[2.0, 4.0, 8.0]), *r.pick(&[1.0, 2.0, 0.5])) } else { V2::new(r.uniform(1.0, 10.0), r.uniform(0.3, 3.0)) };
+            let mut rem = Vec::new();
+            if r.below(3) == 0 { for i in 0..n - 1 { if r.below(3) == 0 { rem.push(i); } } }
+            let w = format!("{} {} {} {}{}", n, hxs(hs.iter()), d2::hv(&sc), rem.len(), rem.iter().map(|i| format!(" {}", i)).collect::<String>());
+            let hf = { let mut a = Args::new(&w); hf2(&mut a) };
+            let vtx = |i: usize| -> P2 { P2::new((-0.5 + i as f64 / (n - 1) as f64) * sc.x, hs[i] * sc.y) };
+            let (ymin, ymax) = (hs.iter().cloned().fold(f64::MAX, f64::min) * sc.y, hs.iter().cloned().fold(-f64::MAX, f64::max) * sc.y);
+            for _ in 0..4 {
+                let k = r.below(n as u64 - 1) as usize; let (pa, pb) = (vtx(k), vtx(k + 1));
+                let t = if lat { *r.pick(&[0.0, 0.25, 0.5, 1.0]) } else { r.unit() };
+                let p = pa + (pb - pa) * t;
+                let off = loop { let v = if lat { V2::new(r.lattice(16, 1), r.lattice(16, 1)) } else { d2::gen_v(r, false, 6.0) }; if v.norm_squared() > 0.0 { break v; } };
+                let ymid = if lat { (ymin + ymax) * 0.5 } else { r.uniform(ymin, ymax) };
+                let (o, d) = match r.below(9) {
+                    0 | 1 => { let o = p + off; (o, if r.below(6) == 0 { o - p } else { p - o }) }
+                    2 => { // vertical ray over a vertex / inside a cell, from above or below
+                           let up = r.bool(); let gap = if lat { r.range(-1, 6) as f64 * 0.5 } else { r.uniform(-0.5, 3.0) };
+                           if up { (P2::new(p.x, ymin - gap), V2::new(0.0, 1.0)) } else { (P2::new(p.x, ymax + gap), V2::new(0.0, -1.0)) } }
+                    3 | 4 => { // horizontal ray at a height inside the relief, from outside (entering through a side face) or from inside
+                           let x0 = if r.bool() { sc.x * if lat { *r.pick(&[-1.0, -0.75, 0.75, 1.0]) } else { r.uniform(-1.5, 1.5) } } else { p.x };
+                           let dirx = if x0 > 0.0 || (x0 > -0.5 * sc.x && r.bool()) { -1.0 } else { 1.0 };
+                           (P2::new(x0, ymid), V2::new(dirx, if lat { *r.pick(&[0.0, 0.0, 0.125, -0.125]) } else { r.uniform(-0.2, 0.2) })) }
+                    5 => (p, rand_dir2(r, lat)),
+                    6 => { let e = pb - pa; let s = if r.bool() { 1.0 } else { -1.0 }; let back = if lat { r.range(-2, 4) as f64 * 0.5 } else { r.uniform(-1.0, 2.0) }; (p - e * (s * back), e * s) }
+                    _ => (p + off, rand_dir2(r, lat)),
+                };
+                let d = if d.norm_squared() == 0.0 { V2::new(1.0, 0.0) } else { d };
+                let d = if lat { d * *r.pick(&POW2_SCALES) } else { d * (dir_scale(r, false) / d.norm()) };
+                let t0 = hf.cast_local_ray(&Ray2::new(o, d), f64::MAX, solid);
+                let m = gen_max(r, lat, t0, d.norm());
+                v.push(("rc_hf2".into(), format!("{} {}", w, tail2(&o, &d, m, solid))));
+            }
+        }
+        // ---------------- Polyline (2-D)
+        {
+            let vs = gen_polyline2(r, lat);
+            let w = format!("{} {}", vs.len(), vs.iter().map(d2::hp).collect::<Vec<_>>().join(" "));
+            let pl = { let mut a = Args::new(&w); polyline2(&mut a) };
+            for _ in 0..3 {
+                let (o, d) = gen_polyline2_ray(r, lat, &vs);
+                let t0 = pl.cast_local_ray(&Ray2::new(o, d), f64::MAX, solid);
+                let m = gen_max(r, lat, t0, d.norm());
+                v.push(("rc_polyline2".into(), format!("{} {}", w, tail2(&o, &d, m, solid))));
+            }
+        }
+    }
 }
